@@ -204,7 +204,7 @@ PROPS["C16"] = {
         {"id": "views",
          "quick": ["c16::c16_cbox_view", "c16::c16_carc_view", "c16::c16_slices_u8", "c16::c16_slices_u64", "c16::c16_slices_t3",
                    "c16::c16_cvec_u8_exact", "c16::c16_cvec_u64_exact", "c16::c16_cvec_u64_spare", "c16::c16_cvec_t3_empty",
-                   "c16::c16_callback_view", "c16::c16_citerator_view", "c16::c16_tags", "c16::c16_negative_twin"],
+                   "c16::c16_callback_view", "c16::c16_citerator_view", "c16::c16_citerator_view_droppable_items", "c16::c16_tags", "c16::c16_negative_twin"],
          "cbmc_args": LEAK, "timeout": 1200},
     ],
     "negative": ["c16::c16_negative_twin"],
@@ -226,7 +226,7 @@ PROPS["C05"] = {
     "crate": "rt",
     "groups": [
         {"id": "foreign",
-         "quick": ["c05::c05_foreign_cbox", "c05::c05_foreign_cvec_i0", "c05::c05_foreign_cvec_i1", "c05::c05_foreign_cvec_i2",
+         "quick": ["c05::c05_foreign_cbox", "c05::c05_foreign_cbox_without_drop_fn", "c05::c05_foreign_cvec_i0", "c05::c05_foreign_cvec_i1", "c05::c05_foreign_cvec_i2",
                    "c05::c05_foreign_cslicebox", "c05::c05_foreign_callback", "c05::c05_foreign_iterator",
                    "c10::c10_foreign_functions_used", "c05::c05_negative_twin"],
          "timeout": 1200},
@@ -389,7 +389,8 @@ PROPS["C08"] = {
     "crate": "gen",
     "groups": [
         {"id": "casts",
-         "quick": ["c08::c08_g3_box", "c08::c08_g3_mut", "c08::c08_ref_container", "c08::c08_impl_types_g3", "c08::c08_negative_twin"],
+         "quick": ["c08::c08_g3_box", "c08::c08_g3_mut", "c08::c08_ref_container", "c08::c08_impl_types_g3", "c08::c08_aliased_generic_members",
+                   "c08::c08_negative_twin"],
          "thorough_adds": ["c08::c08_g4_box", "c08::c08_g4_mut"],
          "timeout": 3000},
     ],
